@@ -13,6 +13,22 @@ import (
 	"github.com/tobgu/qframe/config/newqf"
 )
 
+func (x *Exec) noteLen(op string, n int) {
+	if x.lastLen == nil {
+		x.lastLen = map[string]int{}
+	}
+	x.lastLen[op] = n
+}
+
+// after an injected write fault only the fact that an error was reported is judged; the (partial)
+// bytes are not logged
+func bytesIfKept(b []byte, fired bool) BS {
+	if fired {
+		return BS{}
+	}
+	return bytesBS(b)
+}
+
 func intsOrEmpty(a []int) []int {
 	if a == nil {
 		return []int{}
@@ -48,19 +64,33 @@ func (x *Exec) dispatchIO(st *Step, ev Ev) {
 				wcols = bsOrEmpty(st.Csv.WriteCols)
 			}
 		}
-		err := qf.ToCSV(&buf, opts...)
+		fw := &faultWriter{buf: &buf, fault: st.Fault}
+		err := qf.ToCSV(fw, opts...)
 		ev["a"] = Ev{"header": hdr, "hascols": b2i(st.Csv != nil && st.Csv.WriteCols != nil), "cols": wcols}
 		ev["err"] = b2i(err != nil)
-		ev["bytes"] = bytesBS(buf.Bytes())
-		ev["txt"] = txtOf(qf)
+		ev["fired"] = b2i(fw.fired)
+		x.noteLen("ToCSV", buf.Len())
+		ev["bytes"] = bytesIfKept(buf.Bytes(), fw.fired)
+		if fw.fired {
+			ev["txt"] = [][]BS{}
+		} else {
+			ev["txt"] = txtOf(qf)
+		}
 	case "ToJSON":
 		qf := x.frame(st.Recv)
 		var buf bytes.Buffer
-		err := qf.ToJSON(&buf)
+		fw := &faultWriter{buf: &buf, fault: st.Fault}
+		err := qf.ToJSON(fw)
 		ev["a"] = Ev{"_": 0}
 		ev["err"] = b2i(err != nil)
-		ev["bytes"] = bytesBS(buf.Bytes())
-		ev["txt"] = txtOf(qf)
+		ev["fired"] = b2i(fw.fired)
+		x.noteLen("ToCSV", buf.Len())
+		ev["bytes"] = bytesIfKept(buf.Bytes(), fw.fired)
+		if fw.fired {
+			ev["txt"] = [][]BS{}
+		} else {
+			ev["txt"] = txtOf(qf)
+		}
 	case "String":
 		qf := x.frame(st.Recv)
 		s := qf.String()
@@ -109,6 +139,29 @@ type chunkReader struct {
 }
 
 var errInjected = fmt.Errorf("injected I/O fault")
+
+// faultWriter accepts at most fault.At bytes in total, then fails (and keeps failing).
+type faultWriter struct {
+	buf   *bytes.Buffer
+	fault *FaultPos
+	fired bool
+}
+
+func (w *faultWriter) Write(p []byte) (int, error) {
+	if w.fault == nil {
+		return w.buf.Write(p)
+	}
+	room := w.fault.At - w.buf.Len()
+	if room >= len(p) {
+		return w.buf.Write(p)
+	}
+	if room < 0 {
+		room = 0
+	}
+	w.buf.Write(p[:room])
+	w.fired = true
+	return room, errInjected
+}
 
 func (r *chunkReader) Read(p []byte) (int, error) {
 	if len(p) == 0 {
@@ -297,6 +350,9 @@ func (x *Exec) readCSV(st *Step, ev Ev) {
 	ev["a"] = Ev{"doc": bytesBS(doc), "conf": conf.tla(), "parse": parseTable(doc, delim), "rt": rt, "reads": intsOrEmpty(st.Reads)}
 	qf := qframe.ReadCSV(rd, conf.readOpts()...)
 	ev["fired"] = b2i(rd.fired)
+	if rd.fired {
+		ev["a"].(Ev)["parse"] = [][]interface{}{}
+	}
 	x.result(ev, qf)
 }
 
